@@ -9,6 +9,7 @@ from vmon.gen import atomsgen, patterns, replcase
 from vmon.oracle import atomsmodel as AM
 from vmon.oracle import lmpread
 from vmon.oracle.invariant import inconsistencies
+from vmon.oracle.util import clone, deep_diff
 
 PROPERTY = "C09"
 RULE = ("Operation histories on the real Atoms class, each step judged three ways: (1) the structural invariant at the "
@@ -83,7 +84,7 @@ def _kinds(rng, n):
             "dihedral": int(rng.integers(0, 2)) if n >= 4 else 0, "improper": int(rng.integers(0, 2)) if n >= 4 else 0}
 
 
-def fragment(rng, a, which, base, cif_like=False):
+def fragment(rng, a, which, base, cif_like=False, with_extras=False):
     """a 2- or 4-atom fragment compatible with the current state of `a`"""
     tables, kinds = {}, {}
     for kd in atomsgen.KNAMES:
@@ -99,7 +100,10 @@ def fragment(rng, a, which, base, cif_like=False):
     pair = len(a.pair_coeffs) > 0 if atoms_typed else (which == 0)
     if cif_like and which == 0:
         pair = True          # the documented workflow behind known finding F8: typed atoms without pair table + parameterised fragment
-    return atomsgen.gen_atoms(rng, 2 if which == 0 else 4, tag="F%d" % which, id_base=base, cell=None, kinds=kinds, tables=tables, pair=pair, extras={}, span=1.0)
+    extras = {}
+    if with_extras:     # new labels, and one label the structure already has: columns must be merged by label
+        extras = {"atom": ["_x_atom_a", "_x_atom_f%d" % which], "bond": ["_x_bond_f"], "angle": ["_x_angle_a"] if which else [], "dihedral": ["_x_dih_f"] if which else []}
+    return atomsgen.gen_atoms(rng, 2 if which == 0 else 4, tag="F%d" % which, id_base=base, cell=None, kinds=kinds, tables=tables, pair=pair, extras=extras, span=1.0)
 
 
 def op_list(n, a, rng):
@@ -137,20 +141,24 @@ def apply_op(a, op, rng, step, ctx, st, w):
     m0 = AM.resolve(a)
     ids = m0.ids()
     kind = op[0]
+    pre = clone(a)          # independent snapshot (not Atoms.copy): no operation may change the object it was applied from
     flagged = getattr(a, "_vmon_pair_merge", False)
     what = "step %d %s" % (step, _fmt(op))
     try:
         if kind == "del":
-            b = a.copy()
+            b = a.copy() if step % 2 else clone(a)       # odd steps work on a real Atoms.copy(): operations on a copy must not reach the original
             del b[list(op[1])]
             pred = AM.delete(m0, [ids[i] for i in op[1]])
         elif kind == "ext":
-            f = fragment(rng, a, op[1], 2000.0 + 100.0 * step, cif_like=w['case']['cls'] == 'cif_like')
+            f = fragment(rng, a, op[1], 2000.0 + 100.0 * step, cif_like=w['case']['cls'] == 'cif_like', with_extras=w['case']['cls'] == 'extras' and step % 2 == 1)
             mf = AM.resolve(f)
             fid = mf.ids()
             idx_map = {int(k): v for k, v in op[2].items()}
-            b = a.copy()
+            b = a.copy() if step % 2 else clone(a)
+            fpre = clone(f)
             b.extend(f, structure_index_map=dict(idx_map))
+            if deep_diff(f, fpre):
+                ctx.fail("%s: extend modified the structure it was given to add: %s" % (what, deep_diff(f, fpre)[:3]), witness=w)
             pred = AM.extend(m0, mf, {fid[k]: ids[v] for k, v in idx_map.items()}, retag=lambda tok: ("O%d" % step, tok[1]))
             flagged = flagged or getattr(b, "_vmon_pair_merge", False)
             st.seen("fragment_vs_structure_pair", "%s+%s" % ("pair" if len(a.pair_coeffs) else ("nopair" if len(a.atom_type_elements) else "untyped"), "pair" if len(f.pair_coeffs) else "nopair"))
@@ -177,6 +185,19 @@ def apply_op(a, op, rng, step, ctx, st, w):
         elif kind == "copy":
             b = a.copy()
             pred = m0
+            # a copy is an object of its own: every in-place mutator applied to it must leave the original alone
+            probe = a.copy()
+            try:
+                probe.translate(np.array([0.5, -0.25, 1.0]))
+                pf = fragment(rng, a, 0, 9000.0, with_extras=True)
+                probe.extend(pf)
+                if len(probe) > 1:
+                    del probe[[0]]
+            except Exception as e:
+                if type(e).__name__ == "PostBroken":
+                    raise
+                ctx.fail("%s: mutating a copy raised %s: %s" % (what, type(e).__name__, str(e)[:160]), witness=w)
+            st.count("copy_independence_probes")
         elif kind == "sub":
             b = a[list(op[1])]
             pred = AM.subset(m0, [ids[i] for i in op[1]])
@@ -232,6 +253,13 @@ def apply_op(a, op, rng, step, ctx, st, w):
         raise Unjudged("operation raised")
     st.count("operations_applied")
     st.seen("operation_kind", kind)
+    d = deep_diff(a, pre)
+    if d:
+        ctx.fail("%s: the object the operation started from was modified (%s) - state shared between an object and its copy / result" % (what, d[:4]), witness=dict(w, state_before=atomsgen.describe(pre)))
+    else:
+        inv_a = inconsistencies(a)
+        if inv_a:
+            report(ctx, st, [(c, m) for c, m in inv_a], flagged, w, what + " (object the operation started from) invariant")
     if pred is not None:
         bad = AM.compare(AM.resolve(b), pred, check_pos=(kind != "ext"))
         report(ctx, st, bad, flagged, dict(w, state_before=atomsgen.describe(a)), what)
